@@ -368,6 +368,32 @@ def make_identity(name, consts):
     return Unit(name, fns, "contracts/simple_layers.h", "lemmas/simple_layers.c", stubs=["stubs/backend.h"])
 
 
+# ---------------------------------------------------------------- linear
+LINEAR = CORE + "backend/transformer/linear.hpp"
+LINEAR_SUBST = [
+    (r"typename\s+__typeof__\(\s*m_backend\s*\)\s*::\s*parent_t\s*::\s*contravariant_input_t\s*::\s*scalar_t", "B_IN_SCALAR_T", 0, True),
+    (r"std::remove_reference_t\s*<\s*typename\s+covariant_output_t::vector_t\s*>", "OUT_VEC_T", 0, True),
+    ("input_scalar_type", "IN_SCALAR_T", 0),
+] + LAYER_SUBST + [
+    ("contravariant_output_t::scalar_t", "B_IN_SCALAR_T", 0),
+    ("std::trunc(", "VERIF_TRUNC(", 0),
+    ("m_backend.at(", "backend_at(", 0),
+    ("_backend_index_helper(", "linear_index_helper(self, ", 0),
+]
+
+
+def make_linear(name, consts, N="2"):
+    n = int(N)
+    fns = [Fn("linear_index_helper", LINEAR, ["struct linear", "struct non_owning_data_t"], "_backend_index_helper",
+              ret="B_IN_VEC_T", ptypes=["B_IN_VEC_T", "size_t", None], vec_types=["B_IN_VEC_T"], method="const LINEAR_SELF_T *self",
+              subst=LINEAR_SUBST, pack=("Is", list(range(n)), n, "B_IN_VEC_T"), must={"R8_pack": 1}),
+           Fn("linear_at", LINEAR, ["struct linear", "struct non_owning_data_t"], "at",
+              ret="OUT_VEC_T", ptypes=["IN_VEC_T"], vec_types=["IN_VEC_T", "B_IN_VEC_T", "OUT_VEC_T"], method="const LINEAR_SELF_T *self",
+              subst=LINEAR_SUBST + [MKSEQ], arrays2=["pc"], brace_call=("backend_at", n, "B_IN_VEC_T"),
+              must={"R6_if_constexpr": 3})]
+    return Unit(name, fns, "contracts/linear.h", "lemmas/linear.c")
+
+
 def get_unit(name, consts=None):
     """name is 'base' or 'base@k=v,k=v' for units whose extraction depends on template arguments."""
     if name in UNITS:
@@ -393,3 +419,4 @@ FACTORIES["cast"] = make_cast
 FACTORIES["deref"] = make_deref
 FACTORIES["constant"] = make_constant
 FACTORIES["identity"] = make_identity
+FACTORIES["linear"] = make_linear
